@@ -15,6 +15,10 @@ def gen_scenarios(ctx, n, depth=24, seed=None, cfg='OciRegistryGen.cfg'):
     return scen
 
 
+WIRE_PROBE = [dict(op='RawStatus', r='r1', u='u1'), dict(op='RawPatch', r='r1', u='u1', data=[], off=-2),
+              dict(op='GetBlob', r='r1', c='b1'), dict(op='GetBlob', r='r1', c='b2'), dict(op='GetBlobRange', r='r1', c='b2', o0=1, o1=2)]
+
+
 def cover_scenarios(ctx, cfg, sample=None, probe=None):
     """Transition coverage of the reference model (OciRegistryCover): one history per (state, operation)
     pair of the small universe; `sample` draws a seeded subset."""
@@ -92,7 +96,7 @@ def replay_reg(ctx, path, module='RegTrace', cfg='RegTrace.cfg', strict=None):
 
 
 def reg_check(ctx, stacks, strict, n_tlc, n_rand, steps=40, profiles=('all',), tlc_cfg='OciRegistryGen.cfg', honest=False,
-              label='', per_file=400, cover=None, cover_sample=None, uploads=0):
+              label='', per_file=400, cover=None, cover_sample=None, uploads=0, wire=0):
     """Common body: TLC-generated histories + seeded-random ones on the given stacks, then
     trace validation against OciRegistry via RegTrace."""
     vh = vlib.build_harness(ctx)
@@ -111,6 +115,12 @@ def reg_check(ctx, stacks, strict, n_tlc, n_rand, steps=40, profiles=('all',), t
     t1 = os.path.join(td, 'tlc.ndjson')
     run_reg(ctx, vh, t1, stacks=stacks, scen=sp, extra=['-honest'] if honest else [])
     traces.append(t1)
+    if wire:
+        # one history per (session state, wire-level upload request) pair, sent as plain HTTP requests
+        scenw = cover_scenarios(ctx, 'OciRegistryCover_wire.cfg', sample=wire if wire > 0 else None, probe=WIRE_PROBE)
+        tw = os.path.join(td, 'wire.ndjson')
+        run_reg(ctx, vh, tw, stacks='http(mem);http:nosingle(debug(mem))', scen=write_scenarios(ctx, scenw, 'scenw.jsonl'))
+        traces.append(tw)
     i = 0
     left = n_rand
     while left > 0:
